@@ -1,7 +1,7 @@
 (* C03 - Event layout: level, context, fields, hook fields, message - each exactly once.
    Statements only. *)
 From Verif Require Import Base.Prelude Base.Decimal Base.Utf8 Base.JsonSpec Enc.JsonEnc Misc.Level
-     Proofs.JsonEncP Api.Exec Api.Spec Proofs.ExecP.
+     Proofs.JsonEncP Api.Exec Api.Spec Proofs.ExecP Proofs.FuelP.
 Open Scope N_scope.
 
 (* the member list of the emitted object is, in this order and nothing else:
@@ -48,7 +48,18 @@ Theorem C03_message_member : forall st msg,
   msg_members st msg = match msg with [] => [] | _ => [(go_runes (s_message_name st), JStr (go_runes msg))] end.
 Proof. reflexivity. Qed.
 
+(* the specification does not depend on its fuel either: with any fuel covering the
+   nesting depth the members of an op are those of [op_spec], and the members of a
+   program are the concatenation of its ops' members *)
+Theorem C03_spec_fuel_irrelevant : forall st n o s, (depth o <= n)%nat -> spec_n st n o s = op_spec st o s.
+Proof. exact spec_fuel_enough. Qed.
+
+Theorem C03_spec_ops_is_op_spec : forall st l s, spec_ops st l s = spec_list (op_spec st) l s.
+Proof. exact spec_ops_is_op_spec. Qed.
+
 Print Assumptions C03_layout.
+Print Assumptions C03_spec_fuel_irrelevant.
+Print Assumptions C03_spec_ops_is_op_spec.
 Print Assumptions C03_hooks_of_path.
 Print Assumptions C03_written_iff_not_discarded.
 Print Assumptions C03_level_member.
